@@ -454,14 +454,26 @@ def run_shard(prop, tier, seed_value, shard, nshards, only=None):
             reg = [dec(e["case"]) for e in json.load(f)]
         conv = getattr(prop, "replay_case", lambda c: c)
         strata.insert(0, Stratum("regress", "once", lambda: [conv(c) for c in reg]))
-    for s in strata:
+    MIN_RUN = 12
+
+    def share(n, si):
+        """examples of stratum si that this shard runs.  A Hypothesis run always starts with the minimal
+        example, so a stratum is never cut into runs shorter than MIN_RUN: small strata go to
+        n // MIN_RUN (at least one) shards, rotating with the stratum index to balance load."""
+        parts = max(1, min(nshards, n // MIN_RUN))
+        pos = (shard - si) % nshards
+        if pos >= parts:
+            return 0
+        return n // parts + (1 if pos < n % parts else 0)
+
+    for si, s in enumerate(strata):
         if only and s.name not in only and not any(s.name.startswith(o) for o in only):
             continue
         ctx.stratum = s.name
         found = None
         try:
             if s.kind == "hyp":
-                n = s.n // nshards + (1 if shard < s.n % nshards else 0)
+                n = share(s.n, si)
                 if n <= 0:
                     continue
                 found = drive_hyp(ctx, prop, s, n)
@@ -469,7 +481,7 @@ def run_shard(prop, tier, seed_value, shard, nshards, only=None):
                 found = drive_enum(ctx, prop, s)
                 ctx.exhaustive.append(s.name)
             elif s.kind == "machine":
-                n = s.n // nshards + (1 if shard < s.n % nshards else 0)
+                n = share(s.n, si)
                 if n <= 0:
                     continue
                 found = drive_machine(ctx, prop, s, n)
